@@ -9,31 +9,45 @@ impl Query for Filter {
         state.flat_map(|p| {
             if p.is_internal() {
                 Data::Value(self.filter_item(p, root).into())
-            } else if let Some(items) = p.inner.as_array() {
-                Data::Refs(
-                    items
-                        .into_iter()
-                        .enumerate()
-                        .filter(|(_, item)| self.filter_item(Pointer::empty(*item), root))
-                        .map(|(idx, item)| Pointer::idx(item, p.path.clone(), idx))
-                        .collect(),
-                )
-            } else if let Some(items) = p.inner.as_object() {
-                Data::Refs(
-                    items
-                        .into_iter()
-                        .filter(|(_, item)| self.filter_item(Pointer::empty(*item), root))
-                        .map(|(key, item)| Pointer::key(item, p.path.clone(), key))
-                        .collect(),
-                )
             } else {
-                return Data::Nothing;
+                self.select_children(p, root)
             }
         })
     }
 }
 
 impl Filter {
+    /// Applies the filter as a selector: keeps the children of every node in `state` for which
+    /// the logical expression is true. Unlike `process` it never takes a node for the current
+    /// node of an enclosing filter, so it is also correct for `@[?...]` and `@..[?...]`.
+    pub(crate) fn select<'a, T: Queryable>(&self, state: State<'a, T>) -> State<'a, T> {
+        let root = state.root;
+        state.flat_map(|p| self.select_children(p, root))
+    }
+
+    fn select_children<'a, T: Queryable>(&self, p: Pointer<'a, T>, root: &'a T) -> Data<'a, T> {
+        if let Some(items) = p.inner.as_array() {
+            Data::Refs(
+                items
+                    .into_iter()
+                    .enumerate()
+                    .filter(|(_, item)| self.filter_item(Pointer::empty(*item), root))
+                    .map(|(idx, item)| Pointer::idx(item, p.path.clone(), idx))
+                    .collect(),
+            )
+        } else if let Some(items) = p.inner.as_object() {
+            Data::Refs(
+                items
+                    .into_iter()
+                    .filter(|(_, item)| self.filter_item(Pointer::empty(*item), root))
+                    .map(|(key, item)| Pointer::key(item, p.path.clone(), key))
+                    .collect(),
+            )
+        } else {
+            Data::Nothing
+        }
+    }
+
     fn process_elem<'a, T: Queryable>(&self, state: State<'a, T>) -> State<'a, T> {
         let process_cond = |filter: &Filter| {
             filter
